@@ -23,6 +23,13 @@ def build_arg(d):
         for pargs, pkw in steps:
             f = f.partial(*[build_arg(x) for x in pargs], **{k: build_arg(v) for k, v in pkw.items()})
         return f
+    if d["t"] == "extfn":
+        # a reference to a function (version) that cannot be resolved in this process: it only knows what the document says
+        from twosigma.memento.reference import FunctionReference
+        return FunctionReference.from_qualified_name(
+            d["qn"], partial_args=tuple(build_arg(x) for x in d.get("pargs", [])) or None,
+            partial_kwargs={k: build_arg(v) for k, v in d.get("pkwargs", {}).items()} or None,
+            parameter_names=list(d["params"]), external=True).memento_fn
     if d["t"] == "list":
         return [build_arg(x) for x in d["v"]]
     if d["t"] == "dict":
